@@ -505,4 +505,4 @@ TECHNIQUE = "contract-based deductive verification: AST->z3 VC generation on the
 
 # get_parameters_strategy's exclusion loop (verified in C17's module) is also what makes a user's OVERRIDE of a parameter win over a generated value of the same name -
 # required or not: get_parameters_value merges `copied.update(new)`, so an overridden name must not be generated again. The same job runs as part of this check.
-SHARED_JOBS = [("C17", "schemathesis.specs.openapi._hypothesis:get_parameters_strategy"), ("C13", "schemathesis.cli.commands.run:run#wiring")]  # + `st run` wiring: the C14_ clauses of that contract belong to this property
+SHARED_JOBS = [("C17", "schemathesis.specs.openapi._hypothesis:get_parameters_strategy"), ("C13", "schemathesis.cli.commands.run:run#wiring"), ("C17", "schemathesis.specs.openapi._hypothesis:get_parameters_value")]  # + `st run` wiring: the C14_ clauses of that contract belong to this property
